@@ -7,7 +7,8 @@ PROP = "C04"
 CHECK_MODULE = "Check.C04"
 COQ_IMPORTS = "Model.Timeline"
 SHARD = 500
-RULE = ("(timeline, collar): all timelines of <=3 (quick) / <=4 (thorough) segments on a 6-point grid x collars "
+RULE = ("[also: support(collar) of a returned support against the same segments rebuilt; copies translated by up to 1.7e9 s] " +
+        "(timeline, collar): all timelines of <=3 (quick) / <=4 (thorough) segments on a 6-point grid x collars "
         "0..5 grid units, plus random timelines of up to 12 segments with the collar drawn from {0, g-1, g, g+1} "
         "for an existing gap g; regimes K0/K4/K1; observed: list(t), support(c), list(support_iter(c)), duration(), "
         "support(c).support(c); copies translated 2 h, 28 h, 3 d or -8 h 20 min from the origin; non-trivial = at least two segments and the support merges or separates something")
